@@ -55,7 +55,7 @@ def verify_factory(ns):
             signed = t.sdict('signed', [('type', typ), ('version', t.int('ver'))])
             signedv = t.anyjson('signedv', first=[('d', signed)])
             udoc = t.sdict('udoc', [('signed', signedv), ('signatures', {})])
-            tdoc = {'signatures': {}, 'signed': t.payload('tsigned', dict)}
+            tdoc = {'signatures': {}, 'signed': t.sdict('tsigned', [('type', t.str('ttype', 8)), ('body', t.payload('tbody', dict))])}
             ucont = t.any('ucont', [('json', 'J'), ('notjson', Opaque(bytes, 'notjson', None)), ('missing', None)])
             tcont = t.any('tcont', [('json', 'J'), ('notjson', Opaque(bytes, 'notjson', None)), ('missing', None)])
             result = t.any('libresult', [(o, o) for o in OUTCOMES])
@@ -110,6 +110,12 @@ def verify_factory(ns):
                     obs.append(dict(name='the library accepted => status 0', status='sat', cex=mk(m)))
             if len(calls) > 1:
                 obs.append(dict(name='exactly one verifier call', status='sat', cex=mk(m)))
+            if not calls:
+                # the verdict is the library's: when both files load and the untrusted one declares a type, the CLI may not decide by itself
+                has_type = zor([zb(p_) for p_, k_, v_ in signed.slots if k_ == 'type'])
+                d_alt = [i for i, (l_, x_) in enumerate(signedv.alts) if x_ is signed][0]
+                obs.append(oblige(eng, 'both files load and the untrusted file declares a type => the library is asked for the verdict',
+                                  z3.And(ucont.tag == 0, tcont.tag == 0, zor([zb(p_) for p_, k_, v_ in udoc.slots if k_ == 'signed']), signedv.tag == d_alt, has_type), mk))
             if calls:
                 which, a, k = calls[0]
                 # dispatch on the declared type of the untrusted file
@@ -284,6 +290,8 @@ def concrete(case):
             accepted = bool(calls) and case['libresult'] == 'ret'
             if (status == 0) != accepted:
                 probs.append(f'status {status} although the library {"accepted" if accepted else "did not accept"}')
+            if not calls and case['ucont'] == 'json' and case['tcont'] == 'json' and isinstance(udoc.get('signed'), dict) and 'type' in udoc['signed']:
+                probs.append(f'status {status} without asking the library although both files load and the untrusted file declares type {udoc["signed"]["type"]!r}')
             if status == 0 and not buf.getvalue().strip():
                 probs.append('status 0 without a success message')
             if calls:
@@ -329,7 +337,7 @@ def units(tier):
             Unit('sign-artifacts status', c18.repodata_factory('c17s', via_cli=True, max_fault=0, A=1, B=0, wrong_kinds=False, meta_kinds=False), expect=('cli:signed', 'cli:aborted'), max_witnesses=60)]
 
 
-BOUNDS = dict(verify_metadata='untrusted file: JSON object whose signed part is any JSON kind or an object with an optional type field of any JSON kind (strings <= 8 chars); or not JSON; or missing; trusted file likewise; library call outcome: returns / SignatureError / MetadataVerificationError / UnknownRoleError / CCT_Error / TypeError / ValueError / KeyError',
+BOUNDS = dict(verify_metadata='untrusted file: JSON object whose signed part is any JSON kind or an object with an optional type field of any JSON kind (strings <= 8 chars); or not JSON; or missing; trusted file: JSON object whose signed part has an optional type (string <= 8 chars) and an opaque body; or not JSON; or missing; library call outcome: returns / SignatureError / MetadataVerificationError / UnknownRoleError / CCT_Error / TypeError / ValueError / KeyError',
               entry_points='cli() returns 0 / 10 / 20 / 1 / None or raises; console script, package __main__, cli module main block', sign_artifacts='as C18 without faults')
 OUTSIDE = 'argparse and interpreter start-up; the interactive modify-metadata command; that the verifiers themselves accept exactly what they should (C03, C05)'
 ASSUMPTIONS = ['process status model: sys.exit(None or 0) -> 0, sys.exit(small int) -> that int, anything else or an uncaught exception -> non-zero; falling off the end of the main module -> 0',
